@@ -9,6 +9,8 @@ macro_rules! cat_fixed_q {
         $m!(t_u32, u32, 4, 0);
         $m!(t_i64, i64, 4, 0);
         $m!(t_u128, u128, 4, 0);
+        $m!(t_i128, i128, 4, 0);
+        $m!(t_i8, i8, 4, 0);
         $m!(t_usize, usize, 4, 0);
         $m!(t_isize, isize, 4, 0);
         $m!(t_bool, bool, 4, 0);
@@ -33,11 +35,9 @@ macro_rules! cat_fixed_q {
 #[macro_export]
 macro_rules! cat_fixed_t {
     ($m:ident) => {
-        $m!(t_i8, i8, 4, 0);
         $m!(t_u16, u16, 4, 0);
         $m!(t_i32, i32, 4, 0);
         $m!(t_u64, u64, 4, 0);
-        $m!(t_i128, i128, 4, 0);
         $m!(t_opt_opt_u8, Option<Option<u8>>, 4, 0);
         $m!(t_rc_u32, std::rc::Rc<u32>, 4, 0);
         $m!(t_arc_u32, std::sync::Arc<u32>, 4, 0);
@@ -59,6 +59,8 @@ macro_rules! cat_fixed_t {
         $m!(t_phantom, std::marker::PhantomData<u64>, 4, 0);
         $m!(t_tup_nested, ((u8, u8), [u16; 2]), 5, 0);
         $m!(t_res_opt, Result<Option<u8>, (u8, u8)>, 4, 0);
+        $m!(t_ipaddr, std::net::IpAddr, 18, 0);
+        $m!(t_socketaddr, std::net::SocketAddr, 18, 0);
     };
 }
 #[macro_export]
